@@ -71,7 +71,7 @@ class AbstractQName(AnyAtomicType):
 
         if not isinstance(qname, str):
             raise TypeError('the 2nd argument has an invalid type %r' % type(qname))
-        self.qname = qname.strip()
+        self.qname = qname.strip(' \t\n\r')
 
         match = self.pattern.match(self.qname)
         if match is None:
